@@ -29,7 +29,18 @@ def canon(ret):
 
 def seqs_for(rng, n):
     base = [rng.choice(FAMILY) for _ in range(n)]
-    return [nc.mutate(rng, s, rng.randint(0, 1)) for s in base]
+    out = [nc.mutate(rng, s, rng.randint(0, 1)) for s in base]
+    if n >= 4 and rng.random() < 0.4:
+        # one length only, relatives by a deletion here and an insertion there (Levenshtein 2, many mismatching positions): whatever
+        # the workers / chunks / compression make of the candidate sets, such pairs are neighbours at max_edits >= 2
+        x = out[0]
+        for t in range(1, n):
+            i, j = rng.randrange(len(x)), rng.randrange(len(x))
+            y = x[:i] + x[i + 1:]
+            out[t] = y[:j] + rng.choice(nc.AA) + y[j:]
+            if t % 3 == 0:
+                x = out[t]
+    return out
 
 
 def with_pool(nn, factory, fn):
@@ -174,6 +185,18 @@ def run(ctx):
         k = ctx.rng.choice([1, 2, 3])
         mode = ctx.rng.choice(["lev", "lev", "hamming", "custom"])
         seqs = nc.repertoire(ctx.rng, ctx.rng.randint(8, 30), maxmut=2, maxlen=13, families=(1 if r % 3 == 0 else 3), same_length=(mode == "hamming" and r % 2 == 0))
+        if r % 4 == 1:
+            # equal lengths, deletion + insertion relatives, a generous limit: the number of reported neighbours per query is
+            # min(limit, number of true neighbours) whatever the compression
+            mode, k, m = "lev", ctx.rng.choice([2, 3]), ctx.rng.choice([3, 5])
+            x = "".join(ctx.rng.choice(nc.AA) for _ in range(ctx.rng.randint(7, 10)))
+            seqs = [x]
+            for t in range(ctx.rng.randint(6, 14)):
+                i, j = ctx.rng.randrange(len(x)), ctx.rng.randrange(len(x))
+                y = x[:i] + x[i + 1:]
+                seqs.append(y[:j] + ctx.rng.choice(nc.AA) + y[j:])
+                if t % 4 == 3:
+                    x = seqs[-1]
         inp = nc.make_inp("kd", mode, k, seqs, cd="hamlen" if mode == "custom" else "none", maxc=8 if mode == "custom" else nc.INF,
                           comp=ctx.rng.choice([1, 2, 5]))
         ncpu = ctx.rng.choice([1, 2, 3]) if r % 2 else (16, 40, 7)[r // 2 % 3]        # also far more workers than sequences
